@@ -85,6 +85,7 @@ def s_call(f, args, l=None):
     if l is not None:
         d["l"] = l
     return d
+def s_va_arg(l, t): return {"k": "va_arg", "l": l, "t": t}
 def s_ret(e=None):
     d = {"k": "ret"}
     if e is not None:
@@ -92,7 +93,8 @@ def s_ret(e=None):
     return d
 
 
-def func(name, ret, params, body): return {"name": name, "ret": ret, "params": [{"n": n, "t": t} for n, t in params], "body": body}
+def func(name, ret, params, body, variadic=False):
+    return {"name": name, "ret": ret, "params": [{"n": n, "t": t} for n, t in params], "body": body, "variadic": variadic}
 def struct(name, fields):
     """fields: (name, type, bitwidth[, alignas])"""
     return {"name": name, "fields": [{"n": f[0], "t": f[1], "bw": f[2], "al": f[3] if len(f) > 3 else 0} for f in fields]}
@@ -237,6 +239,8 @@ def rstmt(s, structs, ind=1):
     if k == "call":
         c = "%s(%s)" % (s["f"], ", ".join(r(a) for a in s["args"]))
         return t + ("%s = %s;\n" % (r(s["l"]), c) if "l" in s else c + ";\n")
+    if k == "va_arg":
+        return t + "%s = __builtin_va_arg(ap__, %s);\n" % (r(s["l"]), ctype(s["t"], structs))
     if k == "ret":
         return t + ("return %s;\n" % r(s["e"]) if "e" in s else "return;\n")
     raise ValueError(k)
@@ -250,14 +254,23 @@ def render(p):
         for f in s["fields"]:
             o += "\t" + ("_Alignas(%d) " % f["al"] if f.get("al") else "") + ctype(f["t"], st, f["n"]) + (" : %d" % f["bw"] if f["bw"] else "") + ";\n"
         o += "};\n"
+    def plist(f):
+        ps = [ctype(q["t"], st, q["n"]) for q in f["params"]]
+        if f.get("variadic"):
+            ps.append("...")
+        return ", ".join(ps) or "void"
     for f in p["funcs"]:
         if f["name"] != "main":
-            o += "static %s;\n" % ctype(f["ret"], st, "%s(%s)" % (f["name"], ", ".join(ctype(q["t"], st, q["n"]) for q in f["params"]) or "void"))
+            o += "static %s;\n" % ctype(f["ret"], st, "%s(%s)" % (f["name"], plist(f)))
     for g in p["globals"]:
         o += rstmt(g, st, 0)
     for f in p["funcs"]:
-        head = ctype(f["ret"], st, "%s(%s)" % (f["name"], ", ".join(ctype(q["t"], st, q["n"]) for q in f["params"]) or "void"))
-        o += ("static " if f["name"] != "main" else "") + head + "\n" + rstmt(f["body"], st, 0)
+        head = ctype(f["ret"], st, "%s(%s)" % (f["name"], plist(f)))
+        body = rstmt(f["body"], st, 0)
+        if f.get("variadic"):
+            # the va_list lives for the whole body; va_start right at the top, va_end is implicit at every return (no-op on these targets)
+            body = body.replace("{\n", "{\n\t__builtin_va_list ap__;\n\t__builtin_va_start(ap__, %s);\n" % f["params"][-1]["n"], 1)
+        o += ("static " if f["name"] != "main" else "") + head + "\n" + body
     return o
 
 
